@@ -4,12 +4,20 @@
 translate:      harness/translate_attr.py (lean_easylist) -> Generated/EasyListRe.lean: the two regexes compiled inside
                 styleFromList (format-character class; group 1 of the CSS-length regex as an `RE` term, its white-space and
                 unit classes, shape checked with Python's own regex parser) and whether the unit is lower-cased (AST)
-proof:          lean/OdfModel/Props/C20.lean (levels_count, levels_numbered, number_iff, prefix_suffix, num_format,
+                harness/translate_grammar.py + translate_attr.py (the tables of odf/grammar.py and odf/attrconverters.py, same
+                content as ./check C06 / C15 write) and lean_easylist_ids -> Generated/EasyListIds.lean: the ids of the four
+                elements and ten attributes the builder touches, in both id spaces
+proof:          lean/OdfModel/Props/C20Grammar.lean (ids_*, shape_*, grammar_accepts, values_accepted, ...) about
+                lean/OdfModel/EasyListCalls.lean x GrammarApi x AttrConv over the regenerated tables;
+                lean/OdfModel/Props/C20.lean (levels_count, levels_numbered, number_iff, prefix_suffix, num_format,
                 display_levels, bullet_first_char, indent_shape_partial, cssSplit_number, cssSplit_unit, split_join,
                 string_form, ...) about
                 lean/OdfModel/EasyList.lean
 correspondence: children and attributes of the element returned by styleFromList / styleFromString  vs  drv_easylist
                 (Python's float()/*/str() of the spacing number is passed to the model as its FloatOracle: partial)
+                + the API calls the real function makes (trace of Element.__init__ / setAttribute / setAttrNS / addElement)
+                vs drv_easylist `calls` (EasyList.callsOf): same calls, order, keywords, attributes stored, values; and the
+                returned tree's (qname, attribute qnames, children) vs the replay of the model's calls
 oracle:         written from the property text: one level per specification numbered 1..n, numbering vs bullet, first
                 format character, prefix/suffix, display levels, bullet = first character, indentation = (i+1) x spacing
                 (Decimal), same unit, accepted by automaticstyles.addElement, serialises to well-formed XML (expat)
@@ -179,6 +187,157 @@ def gen_specs(rng, n):
     return specs
 
 
+# ---------------------------------------------------------------------- Generated/EasyListIds.lean (Props/C20Grammar)
+OFFICE_SHORT = {TEXTNS: 'text', STYLENS: 'style'}
+EASY_ELEMS = [('eListStyle', (TEXTNS, u'list-style')), ('eNumber', (TEXTNS, u'list-level-style-number')),
+              ('eBullet', (TEXTNS, u'list-level-style-bullet')), ('eProps', (STYLENS, u'list-level-properties'))]
+EASY_ATTRS = [('aStyleName', (STYLENS, u'name')), ('aDisplayName', (STYLENS, u'display-name')), ('aLevel', (TEXTNS, u'level')),
+              ('aNumFormat', (STYLENS, u'num-format')), ('aNumPrefix', (STYLENS, u'num-prefix')),
+              ('aNumSuffix', (STYLENS, u'num-suffix')), ('aDisplayLevels', (TEXTNS, u'display-levels')),
+              ('aBulletChar', (TEXTNS, u'bullet-char')), ('aSpaceBefore', (TEXTNS, u'space-before')),
+              ('aMinLabelWidth', (TEXTNS, u'min-label-width'))]
+
+
+def lean_easylist_ids(G, tr):
+    """ids of the four elements and ten attributes styleFromList touches, in the two id spaces of the generated tables:
+    grammar (GrammarNames.elemName / attrName, translate_grammar) and converter table (AttrSchema.qnames, translate_attr).
+    A name the tables do not have gets the first id outside the table, so that the Lean proof that the id names it fails."""
+    L = ['-- GENERATED by harness/c20.py from the name tables of translate_grammar.py / translate_attr.py on every run of',
+         '-- ./check C20 -- do not edit.  Props/C20Grammar.lean proves that every id below names what its identifier says.',
+         'namespace OdfModel.Generated.EasyListIds', '',
+         '/-! ids in Generated/GrammarNames.lean (`elemName`, `attrName`) -/']
+    missing = []
+    for ident, q in EASY_ELEMS:
+        i = G.elems.ids.get(q)
+        if i is None:
+            missing.append(qn(q)); i = len(G.elems.items)
+        L.append('def %s : Nat := %d  -- %s' % (ident, i, qn(q)))
+    for ident, q in EASY_ATTRS:
+        i = G.attrs.ids.get(q)
+        if i is None:
+            missing.append(qn(q)); i = len(G.attrs.items)
+        L.append('def %s : Nat := %d  -- %s' % (ident, i, qn(q)))
+    L += ['', '/-! ids of the same names in Generated/AttrSchema.lean (`qnames`; the id space of AttrTable.bindings) -/']
+    for ident, q in EASY_ELEMS + EASY_ATTRS:
+        i = tr.qid.get(q)
+        if i is None:
+            missing.append('conv ' + qn(q)); i = len(tr.qnames)
+        L.append('def c%s : Nat := %d  -- %s' % (ident[1:], i, qn(q)))
+    L += ['', 'end OdfModel.Generated.EasyListIds']
+    return '\n'.join(L) + '\n', missing
+
+
+def traced_call(G, name, specs, spacing, show_all):
+    """run the real styleFromList with Element.__init__ / setAttribute / setAttrNS / addElement wrapped (in this process
+    only, restored afterwards) -> (element | None, the calls in the wire form of drv_easylist `calls`)"""
+    from odf import easyliststyle
+    from odf.element import Element
+    orig = (Element.__init__, Element.setAttribute, Element.setAttrNS, Element.addElement)
+    log, state = [], {'depth': 0, 'touched': None}
+    eid = lambda q: str(G.elems.ids.get(tuple(q), -1))
+    aid = lambda q: str(G.attrs.ids.get(tuple(q), -1))
+    val = lambda v: enc_str(v if isinstance(v, str) else str(v))
+    RESERVED = ('attributes', 'text', 'cdata', 'qname', 'qattributes', 'check_grammar', 'parent')
+
+    def outer(fn):
+        state['depth'] += 1
+        try:
+            return fn()
+        finally:
+            state['depth'] -= 1
+
+    def w_init(self, *a, **kw):
+        if state['depth'] > 0:
+            return orig[0](self, *a, **kw)
+        state['touched'] = touched = []
+        try:
+            return outer(lambda: orig[0](self, *a, **kw))
+        finally:
+            # logged even when the constructor raises: the exception then surfaces as `err Other …`
+            keys = [k for k in kw if k not in RESERVED]
+            toks = ['C', eid(kw.get('qname', getattr(self, 'qname', ('', '')))), str(len(keys))]
+            for i, k in enumerate(keys):
+                toks += [enc_str(k), aid(touched[i]) if i < len(touched) else '-1', val(kw[k])]
+            if len(touched) != len(keys):
+                toks.append('TOUCHED-%d' % len(touched))
+            log.append(' '.join(toks))
+
+    def w_setattribute(self, attr, value, *a, **kw):
+        if state['depth'] > 0:
+            return orig[1](self, attr, value, *a, **kw)
+        state['touched'] = touched = []
+        try:
+            return outer(lambda: orig[1](self, attr, value, *a, **kw))
+        finally:
+            log.append(' '.join(['S', eid(self.qname), enc_str(attr) if isinstance(attr, str) else 'NOT-A-KEYWORD',
+                                 aid(touched[0]) if len(touched) == 1 else 'TOUCHED-%d' % len(touched), val(value)]))
+
+    def w_setattrns(self, namespace, localpart, value):
+        if state['depth'] > 0:
+            if state['touched'] is not None:
+                state['touched'].append((namespace, localpart))
+            return orig[2](self, namespace, localpart, value)
+        try:
+            return outer(lambda: orig[2](self, namespace, localpart, value))
+        finally:
+            log.append(' '.join(['N', eid(self.qname), aid((namespace, localpart)), val(value)]))
+
+    def w_addelement(self, element, *a, **kw):
+        if state['depth'] > 0:
+            return orig[3](self, element, *a, **kw)
+        try:
+            return outer(lambda: orig[3](self, element, *a, **kw))
+        finally:
+            log.append(' '.join(['A', eid(self.qname), eid(element.qname)]))
+
+    Element.__init__, Element.setAttribute, Element.setAttrNS, Element.addElement = w_init, w_setattribute, w_setattrns, w_addelement
+    try:
+        try:
+            st = easyliststyle.styleFromList(name, list(specs), spacing, show_all)
+        except ValueError:
+            return None, 'err ValueError'
+        except IndexError:
+            return None, 'err IndexError'
+        except Exception as ex:
+            return None, 'err Other %s after %s' % (type(ex).__name__, ' | '.join(log[-2:]))
+    finally:
+        Element.__init__, Element.setAttribute, Element.setAttrNS, Element.addElement = orig
+    return st, ' '.join(['ok', str(len(log))] + log)
+
+
+def tree_ids(G, el):
+    """(element id, sorted attribute ids, children) of a real element tree, ids of the grammar name tables"""
+    return (G.elems.ids.get(tuple(el.qname), -1), sorted(G.attrs.ids.get(tuple(a), -1) for a in el.attributes),
+            [tree_ids(G, k) for k in el.childNodes if k.nodeType == 1])
+
+
+def replay_calls(answer):
+    """the tree the model's calls build: a constructor makes a new element, setAttribute / setAttrNS / addElement act on
+    the most recent element of that name (the program has one live element per name at any time)"""
+    toks = answer.split(' ')
+    n, i = int(toks[1]), 2
+    live, first = {}, None
+    for _ in range(n):
+        op = toks[i]
+        if op == 'C':
+            e, k = int(toks[i + 1]), int(toks[i + 2])
+            node = [e, set(int(toks[i + 3 + 3 * j + 1]) for j in range(k)), []]
+            live[e] = node
+            if first is None:
+                first = node
+            i += 3 + 3 * k
+        elif op == 'S':
+            live[int(toks[i + 1])][1].add(int(toks[i + 3])); i += 5
+        elif op == 'N':
+            live[int(toks[i + 1])][1].add(int(toks[i + 2])); i += 4
+        elif op == 'A':
+            live[int(toks[i + 1])][2].append(live[int(toks[i + 2])]); i += 3
+        else:
+            raise ValueError('bad call token %r' % op)
+    freeze = lambda nd: (nd[0], sorted(nd[1]), [freeze(c) for c in nd[2]])
+    return freeze(first)
+
+
 def run(chk, replay=None):
     from odf import easyliststyle
     from odf.opendocument import OpenDocumentText
@@ -257,8 +416,25 @@ def run(chk, replay=None):
                    info['ok'], repr(dict((k, v) for k, v in info.items() if k != 'num_ast')))
     chk.assumptions.append('C20: Python float(), float multiplication and str(float) are a parameter of the model (FloatOracle); '
                            'the proportional-indentation clause is checked by correspondence and by the oracle only')
+    # the grammar / converter tables Props/C20Grammar speaks about, regenerated from the working tree, and the ids in them
+    G = tr = None
+    try:
+        import translate_grammar as tg
+        G = tg.translate(common.REPO)
+        tg.write(chk, G)
+        tr = T.Translation(common.REPO)
+        chk.write_generated('AttrConv', tr.lean_code())
+        chk.write_generated('AttrSchema', tr.lean_schema())
+        chk.write_generated('AttrTable', tr.lean_table())
+        ids_text, ids_missing = lean_easylist_ids(G, tr)
+        chk.write_generated('EasyListIds', ids_text)
+        chk.obligation('translator: the four elements and ten attributes of easyliststyle.py are in the grammar and converter name tables',
+                       not ids_missing, ', '.join(ids_missing))
+    except Exception as ex:      # the sources no longer have the form the translators read
+        G = tr = None
+        chk.obligation('translator: odf/grammar.py / odf/attrconverters.py can be read (Generated/EasyListIds.lean)', False, repr(ex))
     # ------------------------------------------------------------ 2 prove
-    chk.prove(drivers=['drv_easylist'])
+    chk.prove(modules=['OdfModel.Props.C20', 'OdfModel.Props.C20Grammar'], drivers=['drv_easylist'])
     drv = chk.driver('drv_easylist')
     css_re = re.compile(info['cssLengthPattern']) if info['cssLengthPattern'] else re.compile('x^')
     fmt_re = re.compile(info['numFormatPattern']) if info['numFormatPattern'] else re.compile('x^')
@@ -376,6 +552,31 @@ def run(chk, replay=None):
         chk.corr(); chk.count('corr_regex')
         if x != g:
             chk.corr_diff({'line': l}, x, g, 'numFormatPattern / cssLengthPattern search')
+
+    # ------------------------------------------------------------ 3b the calls the real function makes vs EasyList.callsOf
+    if G is not None:
+        call_cases = [c for c in cases if c[0] == 'list']
+        if not thorough:
+            call_cases = call_cases[:130] + rng.sample(call_cases[130:], min(400, max(0, len(call_cases) - 130)))
+        clines = []
+        for kind, name, payload, specs, spacing, sa, scope in call_cases:
+            base, muls = float_oracle(css_re, spacing, len(payload))
+            clines.append(' '.join(['calls', '1' if sa else '0', enc_str(name), enc_str(spacing), base, str(len(payload))]
+                                   + [enc_str(x) for x in payload] + muls))
+        canswers = drv.batch(clines)
+        for (kind, name, payload, specs, spacing, sa, scope), line, ans in zip(call_cases, clines, canswers):
+            st, res = traced_call(G, name, payload, spacing, sa)
+            chk.corr(); chk.count('corr_calls')
+            if res != ans:
+                chk.corr_diff({'line': line}, res, ans, 'API calls made by styleFromList (factory keywords, setAttribute, setAttrNS, addElement)')
+                continue
+            if st is not None:
+                chk.corr(); chk.count('corr_calls_tree')
+                real = tree_ids(G, st)
+                replayed = replay_calls(ans)
+                if real != replayed:
+                    chk.corr_diff({'line': line}, repr(real), repr(replayed),
+                                  'element names, attribute names and children of the returned tree vs the replay of the model calls')
 
     # ------------------------------------------------------------ 4 oracle
     for kind, name, payload, specs, spacing, sa, scope in cases:
